@@ -161,6 +161,12 @@ def fmtResInts : Res (Array Int) → String
   | .err => "err"
   | .panic c => "panic:" ++ c
 
+def dedup (xs : List (Ty × String)) : List (Ty × String) :=
+  xs.foldl (fun acc x =>
+    if acc.any (fun y => y.2 == x.2 && (match y.1, x.1 with
+      | .E, .E => true | .S, .S => true | .P, .P => true | .B, .B => true | _, _ => false)) then acc
+    else acc ++ [x]) []
+
 /-- internal (overlay-exported) functions; they never change the store except `I.feMulGeneric`/`I.feSquareGeneric` -/
 def internal (σ : Store) (ws : List String) : Option (Store × String) :=
   match ws with
@@ -187,26 +193,33 @@ def internal (σ : Store) (ws : List String) : Option (Store × String) :=
     let _ ← σ.e[v]?; let x ← σ.e[a]?; let y ← σ.e[b]?
     let r := EdVerif.Gen.Field.feMulGeneric Fe.rz x y
     let σ' := { σ with e := σ.e.insert v r }
-    pure (σ', "ok | " ++ " ".intercalate ([(Ty.E, v), (Ty.E, a), (Ty.E, b)].map (showSlot σ')))
+    pure (σ', "ok | " ++ " ".intercalate ((dedup [(Ty.E, v), (Ty.E, a), (Ty.E, b)]).map (showSlot σ')))
   | ["I.feSquareGeneric", v, a] => do
     let _ ← σ.e[v]?; let x ← σ.e[a]?
     let r := EdVerif.Gen.Field.feSquareGeneric Fe.rz x
     let σ' := { σ with e := σ.e.insert v r }
-    pure (σ', "ok | " ++ " ".intercalate ([(Ty.E, v), (Ty.E, a)].map (showSlot σ')))
+    pure (σ', "ok | " ++ " ".intercalate ((dedup [(Ty.E, v), (Ty.E, a)]).map (showSlot σ')))
   | _ => none
-
-def dedup (xs : List (Ty × String)) : List (Ty × String) :=
-  xs.foldl (fun acc x =>
-    if acc.any (fun y => y.2 == x.2 && (match y.1, x.1 with
-      | .E, .E => true | .S, .S => true | .P, .P => true | .B, .B => true | _, _ => false)) then acc
-    else acc ++ [x]) []
 
 def stepLine (σ : Store) (line : String) : Store × String :=
   let ws := (line.splitOn " ").filter (· ≠ "")
   match ws with
   | [] => (σ, "")
   | w :: _ =>
-    if w == "B.mutate" then
+    if w.endsWith ".show" then
+      match ws with
+      | [_, n] =>
+        let r : Option String := match w with
+          | "E.show" => (σ.e[n]?).map fun _ => showSlot σ (.E, n)
+          | "S.show" => (σ.s[n]?).map fun _ => showSlot σ (.S, n)
+          | "P.show" => (σ.p[n]?).map fun _ => showSlot σ (.P, n)
+          | "B.show" => (σ.b[n]?).map fun _ => showSlot σ (.B, n)
+          | _ => none
+        match r with
+        | some t => (σ, "ok | " ++ t)
+        | none => (σ, "bad-op")
+      | _ => (σ, "bad-op")
+    else if w == "B.mutate" then
       match ws with
       | [_, n, h] =>
         match σ.b[n]?, parseHex h with
